@@ -87,6 +87,15 @@ impl Write for Sink {
 
 const MARKER: u8 = b'|';
 
+/// bytes for messages: lossy text, cut to a readable length
+fn show(b: &[u8]) -> String {
+    if b.len() <= 160 {
+        format!("{:?}", String::from_utf8_lossy(b))
+    } else {
+        format!("{:?}… ({} bytes)", String::from_utf8_lossy(&b[..160]), b.len())
+    }
+}
+
 fn map_fn(seg: &[u8]) -> Vec<u8> {
     let mut o = b"[".to_vec();
     o.extend(seg.iter().map(u8::to_ascii_uppercase));
@@ -130,7 +139,7 @@ pub fn run_one(input: &[u8], chunks: &[usize], sink: &[u8], kind: &str, finish_b
             for (name, d) in [("first", da), ("second", db)] {
                 let got = d.lock().expect("sink").clone();
                 if got != input {
-                    detail.push(format!("tee: {name} target got {} bytes {:?}, input was {} bytes {:?}", got.len(), String::from_utf8_lossy(&got), input.len(), String::from_utf8_lossy(input)));
+                    detail.push(format!("tee: {name} target got {} bytes {:?}, input was {} bytes {:?}", got.len(), show(&got), input.len(), show(input)));
                 }
             }
         }
@@ -150,10 +159,10 @@ pub fn run_one(input: &[u8], chunks: &[usize], sink: &[u8], kind: &str, finish_b
             if got != want {
                 detail.push(format!(
                     "mapped: inner writer received {:?}, expected {:?} for input {:?} split as {:?}",
-                    String::from_utf8_lossy(&got),
-                    String::from_utf8_lossy(&want),
-                    String::from_utf8_lossy(input),
-                    chunks
+                    show(&got),
+                    show(&want),
+                    show(input),
+                    &chunks[..chunks.len().min(40)]
                 ));
             }
         }
@@ -167,19 +176,42 @@ pub fn run_many(global_seed: u64, base: u64, n: u64) -> DirectSummary {
     for i in 0..n {
         let seed = run_seed(global_seed, "e5-direct", base.wrapping_add(i));
         let mut r = Rng::new(seed);
-        let len = match r.below(8) {
-            0 => 0,
-            1..=5 => r.usize(12),
-            _ => r.usize(60),
+        // one run in 500: a long input with (almost) no marker, i.e. segments far longer than
+        // any buffer size somebody might pick (8 KiB, 64 KiB, 1 MiB)
+        let long = r.chance(1, 500);
+        let len = if long {
+            *r.pick(&[9_000usize, 70_000, 1_100_000, 2_300_000])
+        } else {
+            match r.below(8) {
+                0 => 0,
+                1..=5 => r.usize(12),
+                _ => r.usize(60),
+            }
         };
         let density = 1 + r.below(5);
-        let input: Vec<u8> = (0..len)
-            .map(|_| if r.below(6) < density { MARKER } else { b'a' + r.below(3) as u8 })
-            .collect();
+        // alphabet: the marker, ASCII, and bytes that are not valid UTF-8 on their own
+        let other = |r: &mut Rng| *r.pick(&[b'a', b'b', b'c', 0xFF, 0xC3, 0x80, 0x00]);
+        let mut input: Vec<u8> = if long {
+            (0..len).map(|i| b"abcdefghijklmnopqrstuvwxyz\xff\xc3 "[(i * 5 + i / 97) % 29]).collect()
+        } else {
+            (0..len).map(|_| if r.below(6) < density { MARKER } else { other(&mut r) }).collect()
+        };
+        if long {
+            for _ in 0..r.usize(3) {
+                let at = r.usize(len);
+                input[at] = MARKER;
+            }
+        }
         let mut chunks = Vec::new();
         let mut left = len;
         while left > 0 && r.chance(4, 5) {
-            let c = if r.chance(1, 3) { 0 } else { 1 + r.usize(left.min(7)) };
+            let c = if r.chance(1, 3) {
+                0
+            } else if long {
+                1 + r.usize(left.min(len / 3 + 1))
+            } else {
+                1 + r.usize(left.min(7))
+            };
             chunks.push(c);
             left -= c.min(left);
         }
